@@ -347,3 +347,72 @@ Example C10_bulk_foreign_predecessor_example :
   bk_sv b = Some (0, 1, 1) /\ bk_calls b = [ {| fc_i := 1; fc_k := 1; fc_task := 0; fc_thr := 1 |} ] /\
   ex_roles 1 = RWorker 0 1 /\ bp_pool exb_bp = 1.
 Proof. vm_compute. repeat split. Qed.
+
+(* ------------------------------------------------------------------------------------------
+   The priority a new task gets (Model/Priority.v): it decides the queue FAMILY, hence on a priority
+   scheduler with H < W high-priority queues whether a task hinted to worker h is pushed on queue h
+   or on high-priority queue h mod H.  [resolve_priority] interprets the step list that
+   tools/genmods/c10.py regenerates from threads::detail::create_work (create_work.cpp) in source
+   order, [resolve_priority_thread] the one of threads::detail::create_thread (create_thread.cpp).
+   [parent] = stored priority of the submitting pika task, None for a non-pika submitter. *)
+From Pika Require Import Gen.GenPriority Model.Priority Proofs.PriorityProofs.
+
+(* an explicitly requested priority is kept, whatever the parent is *)
+Theorem C10_explicit_priority_kept : forall requested parent,
+  requested <> rp_default_ -> resolve_priority requested parent = requested.
+Proof. exact explicit_priority_kept_lemma. Qed.
+Print Assumptions C10_explicit_priority_kept.
+
+Theorem C10_explicit_priority_kept_create_thread : forall requested parent,
+  requested <> rp_default_ -> resolve_priority_thread requested parent = requested.
+Proof. exact explicit_priority_kept_thread_lemma. Qed.
+Print Assumptions C10_explicit_priority_kept_create_thread.
+
+(* default_ inherits high_recursive from a high_recursive parent and from nothing else; otherwise
+   it is normal (both functions) *)
+Theorem C10_default_inherits_only_high_recursive : forall parent,
+  resolve_priority rp_default_ parent =
+    match parent with Some rp_high_recursive => rp_high_recursive | _ => rp_normal end
+  /\ resolve_priority_thread rp_default_ parent =
+    match parent with Some rp_high_recursive => rp_high_recursive | _ => rp_normal end.
+Proof. exact default_inherits_only_high_recursive_lemma. Qed.
+Print Assumptions C10_default_inherits_only_high_recursive.
+
+(* composition with the hint -> queue function of Model/Placement.v: an explicitly normal child
+   hinted to worker h < W is pushed on queue h — for every parent priority, every number of
+   high-priority queues (pH c is unconstrained), priority scheduler or not *)
+Theorem C10_normal_child_queue_is_hinted_queue : forall (c : pool_cfg) p parent h rr,
+  h < pW c -> (Z.of_nat (pW c) <= 32767)%Z ->
+  child_queue c p rp_normal parent (worker_hint h) rr = QN p h.
+Proof. exact normal_child_queue_is_hinted_queue_lemma. Qed.
+Print Assumptions C10_normal_child_queue_is_hinted_queue.
+
+(* the parent influences the queue family ONLY through a default_ request *)
+Theorem C10_child_queue_parent_independent : forall (c : pool_cfg) p requested parent parent' h rr,
+  requested <> rp_default_ ->
+  child_queue c p requested parent h rr = child_queue c p requested parent' h rr.
+Proof. exact child_queue_parent_independent_lemma. Qed.
+Print Assumptions C10_child_queue_parent_independent.
+
+(* ... and what the inheriting child gets on a priority scheduler: high-priority queue h mod H
+   (worker h only if h < H: the known finding boost_hp_queues / H < W applies to it) *)
+Theorem C10_inherited_child_queue : forall (c : pool_cfg) p h rr,
+  h < pW c -> (Z.of_nat (pW c) <= 32767)%Z -> pPrio c = true ->
+  child_queue c p rp_default_ (Some rp_high_recursive) (worker_hint h) rr = QH p (h mod pH c).
+Proof. exact inherited_child_queue_lemma. Qed.
+Print Assumptions C10_inherited_child_queue.
+
+(* non-vacuity / the situation that distinguishes the orders of the resolution steps: static-priority
+   pool, W = 4, ONE high-priority queue, submitter high_recursive, hint 3 *)
+Definition prio_ex_cfg : pool_cfg :=
+  {| pW := 4; pH := 1; pPrio := true; pSteal := false; pElastic := false; pAvail := fun _ => true |}.
+Example C10_priority_example :
+  g_cw_steps = [SInherit rp_default_ rp_high_recursive rp_high_recursive; SDefault rp_default_ rp_normal] /\
+  child_queue prio_ex_cfg 0 rp_normal (Some rp_high_recursive) (worker_hint 3) 0 = QN 0 3 /\
+  child_queue prio_ex_cfg 0 rp_default_ (Some rp_high_recursive) (worker_hint 3) 0 = QH 0 0 /\
+  child_queue prio_ex_cfg 0 rp_default_ (Some rp_high) (worker_hint 3) 0 = QN 0 3 /\
+  child_queue prio_ex_cfg 0 rp_default_ None (worker_hint 3) 0 = QN 0 3 /\
+  child_queue prio_ex_cfg 0 rp_high (Some rp_normal) (worker_hint 3) 0 = QH 0 0 /\
+  child_queue prio_ex_cfg 0 rp_low (Some rp_high_recursive) (worker_hint 3) 0 = QL 0 /\
+  map run_now [rp_normal; rp_low; rp_high; rp_high_recursive; rp_boost] = [false; false; true; true; true].
+Proof. vm_compute. repeat split. Qed.
